@@ -272,3 +272,61 @@ def distribution(E, cod_kinds):
     for bits in itertools.product((0, 1), repeat=n):
         out[bits] = T[tuple(3 * b for b in bits)] if n else T[()]
     return out
+
+
+# ------------------------------------------------------------------ ZX reference
+
+HAD = np.array([[1, 1], [1, -1]], dtype=complex) / np.sqrt(2)
+
+
+def kron_all(ms):
+    out = np.eye(1, dtype=complex)
+    for m in ms:
+        out = np.kron(out, m)
+    return out
+
+
+def z_spider(n_in, n_out, phase):
+    """[in, out] matrix of the Z spider: |0..0><0..0| + e^{2 pi i phase} |1..1><1..1|."""
+    m = np.zeros((2 ** n_in, 2 ** n_out), dtype=complex)
+    m[0, 0] += 1
+    m[2 ** n_in - 1, 2 ** n_out - 1] += np.exp(2j * np.pi * float(phase))
+    return m
+
+
+def zx_box_matrix(box):
+    """[in, out] matrix of a ZX generator from its textbook definition."""
+    from discopy.quantum import zx
+    n_in, n_out = len(box.dom), len(box.cod)
+    if isinstance(box, zx.Z):
+        return z_spider(n_in, n_out, box.phase)
+    if isinstance(box, zx.X):
+        return kron_all([HAD] * n_in) @ z_spider(n_in, n_out, box.phase) @ kron_all([HAD] * n_out)
+    if isinstance(box, zx.Y):
+        # Y spider: Z spider conjugated by the Y-basis change (S H on every leg)
+        raise KeyError("Y spiders are not part of the reference alphabet")
+    if isinstance(box, zx.Had):
+        return HAD.copy()
+    if isinstance(box, zx.Swap):
+        return ref.swap_matrix(2, 2)
+    if isinstance(box, zx.Scalar):
+        return np.array([[complex(box.data)]])
+    raise KeyError("no ZX reference for %r" % (box,))
+
+
+def zx_ref(d):
+    return ref.ref_eval(d, lambda a: 2, lambda b, dd, dc: zx_box_matrix(b))
+
+
+def proportional(a, b, tol=1e-9):
+    """Is a == lam * b for one non-zero scalar lam?  Returns (ok, lam)."""
+    a, b = np.asarray(a, dtype=complex), np.asarray(b, dtype=complex)
+    if a.shape != b.shape:
+        return False, None
+    k = np.argmax(np.abs(b))
+    if abs(b.flat[k]) < tol:
+        return (bool(np.all(np.abs(a) < tol)) and False), None   # reference is zero: not decidable -> not ok
+    lam = a.flat[k] / b.flat[k]
+    if abs(lam) < tol:
+        return False, lam
+    return bool(np.all(np.abs(a - lam * b) <= tol * max(1, abs(lam)))), lam
